@@ -27,7 +27,8 @@ theorem u32_parts (f : Fam) (hfa : f.afi < 65536) : famOfU32 f.u32 = f := by
   rw [this]
   cases f; simp
 
-theorem master_small (p : Profile) (i : Input) (h : domSmall i = true) : check i (run p i) = .ok := by
+theorem master_small (p : Profile) (i : Input) (h : domSmall i = true) :
+    check i (run p i) = .ok ∧ ∃ n s dec, run p i = .obs n s dec .t := by
   unfold domSmall at h
   have hge := maxFrame_ge i
   have hle := maxFrame_le i
@@ -43,6 +44,7 @@ theorem master_small (p : Profile) (i : Input) (h : domSmall i = true) : check i
         (by rw [hm]; simp [doEncode]) (by rw [hmaxF]; simp; omega) (by simp)
         (by intro od; simp [parseMessage, frame_type])
         rfl rfl rfl rfl (by simp [doEncode])
+      refine ⟨?_, _, _, _, hrun⟩
       rw [hrun]
       apply check_single i 4 [] .keepalive hb henc (by rw [hm]; rfl) (by simp; omega) (by simp)
       · simp [frameLengths, frame_type, frame_body]
@@ -61,6 +63,7 @@ theorem master_small (p : Profile) (i : Input) (h : domSmall i = true) : check i
             simp only [parseMessage, frame_length, hbl, frame_type, beNat_single, frame_body, u32_parts f hfa]
             simp)
         rfl rfl rfl rfl (by simp [doEncode])
+      refine ⟨?_, _, _, _, hrun⟩
       rw [hrun]
       apply check_single i 5 f.u32 (.rr f) hb henc (by rw [hm]; rfl) (by rw [hbl]; omega) (by rw [hbl]; omega)
       · simp [frameLengths, frame_type, frame_body, hbl]
@@ -95,6 +98,7 @@ theorem master_small (p : Profile) (i : Input) (h : domSmall i = true) : check i
             rw [e1, e2, e3, beNat_single, beNat_single, hcan]
             simp)
         rfl rfl rfl rfl hdoe
+      refine ⟨?_, _, _, _, hrun⟩
       rw [hrun]
       apply check_single i 3 ([c, s] ++ d) (.notif c s d) hb henc (by rw [hm]; rfl) (by rw [hbl]; omega) (by rw [hbl]; omega)
       · simp [frameLengths, frame_type, frame_body]
@@ -112,6 +116,7 @@ theorem master_small (p : Profile) (i : Input) (h : domSmall i = true) : check i
           (by rw [hm]; exact doEncode_eor_ipv4 p _ []) (by rw [hmaxF]; simp; omega) (by simp)
           (by intro od; rw [parseMessage_update]; exact parseUpdate_eor_ipv4 od _)
           rfl rfl rfl rfl (doEncode_eor_ipv4 p _ [])
+        refine ⟨?_, _, _, _, hrun⟩
         rw [hrun]
         apply check_single i 2 [0, 0, 0, 0] (.eor Fam.ipv4) hb henc (by rw [hm]; rfl) (by simp; omega) (by simp)
         · exact frameLengths_update _ ⟨[], [], []⟩ [] (by simp [updateSections, beNat]) (by simp [tlvs]) rfl
@@ -130,6 +135,7 @@ theorem master_small (p : Profile) (i : Input) (h : domSmall i = true) : check i
           (by rw [hm]; exact doEncode_eor_mp p _ f [] hf4) (by rw [hmaxF, hbl]; omega) (by rw [hbl]; omega)
           (by intro od; rw [parseMessage_update]; exact parseUpdate_eor_mp od _ f rx hrx hfa hfs)
           rfl rfl rfl rfl (doEncode_eor_mp p _ f [] hf4)
+        refine ⟨?_, _, _, _, hrun⟩
         rw [hrun]
         apply check_single i 2 _ (.eor f) hb henc (by rw [hm]; rfl) (by rw [hbl]; omega) (by rw [hbl]; omega)
         · exact unreach_mp_struct f [] (by simp)
